@@ -24,6 +24,10 @@
 //!   task <tag> <step>...
 //!   step = draw | draw32 | send:<dst>:<kind> | sched:<delay>:<kind> | spawn:<task>
 //!        | sleep:<ns> | sel:<ns>,<ns>[,<ns>]        (spawn: handlers only; sleep, sel: tasks only)
+//!        | shut | restart:<ns>                       `current().shutdown()` / `shutdow_and_restart_in(ns)`, from
+//!                                                    handlers and tasks; at most 2 per module and run
+//! A shutdown is processed after the event: the module's tokio runtime and its tasks are dropped, `Module::reset`
+//! runs on the runtime of the next incarnation (logged as `reset`), a restart replays `at_sim_start`.
 //! A message carries kind (selects the rule), ttl (header id; emissions need ttl > 0 and emit ttl-1) and
 //! a serial number (content) that counts the emissions of the run.
 //!
@@ -56,6 +60,8 @@ enum Step {
     Spawn(String),
     Sleep(u64),
     Sel(Vec<u64>),
+    Shut,
+    Restart(u64),
 }
 
 #[derive(Clone, Debug, PartialEq)]
@@ -89,6 +95,8 @@ fn parse_step(t: &str) -> Option<Step> {
         ["sched", d, k] => Some(Step::Sched(d.parse().ok()?, k.parse().ok()?)),
         ["spawn", t] => Some(Step::Spawn(t.to_string())),
         ["sleep", d] => Some(Step::Sleep(d.parse().ok()?)),
+        ["shut"] => Some(Step::Shut),
+        ["restart", d] => Some(Step::Restart(d.parse().ok()?)),
         ["sel", ds] => {
             let v: Option<Vec<u64>> = ds.split(',').map(|x| x.parse().ok()).collect();
             let v = v?;
@@ -201,9 +209,19 @@ struct Shared {
     serial: u64,
     /// `ModuleId` (process-global counter) -> path, filled while the simulation is built
     ids: Vec<(u16, String)>,
+    /// `Module::reset` calls per module path (= incarnation number)
+    incs: Vec<(String, u32)>,
 }
 
-static SH: Mutex<Shared> = Mutex::new(Shared { log: Vec::new(), drops: Vec::new(), serial: 0, ids: Vec::new() });
+static SH: Mutex<Shared> =
+    Mutex::new(Shared { log: Vec::new(), drops: Vec::new(), serial: 0, ids: Vec::new(), incs: Vec::new() });
+
+/// at most this many shutdowns per module and run, so that every script terminates
+const MAX_INC: u32 = 2;
+
+fn inc_of(path: &str) -> u32 {
+    sh().incs.iter().find(|x| x.0 == path).map(|x| x.1).unwrap_or(0)
+}
 
 fn sh() -> std::sync::MutexGuard<'static, Shared> {
     SH.lock().unwrap_or_else(|e| e.into_inner())
@@ -261,6 +279,18 @@ fn step_sync(net: &Net, path: &str, st: &Step, ttl: u16, who: &str) {
             };
             obs("sched", who, "-", &[*kind as u64, (ttl - 1) as u64, serial, *delay]);
             schedule_in(Message::default().kind(*kind).id(ttl - 1).with_content(serial), Duration::from_nanos(*delay));
+        }
+        Step::Shut => {
+            if inc_of(path) < MAX_INC {
+                obs("shutdown", who, "-", &[0]);
+                current().shutdown();
+            }
+        }
+        Step::Restart(d) => {
+            if inc_of(path) < MAX_INC {
+                obs("shutdown", who, "-", &[1, *d]);
+                current().shutdow_and_restart_in(Duration::from_nanos(*d));
+            }
         }
         Step::Spawn(_) | Step::Sleep(_) | Step::Sel(_) => {}
     }
@@ -380,6 +410,18 @@ impl Node {
 }
 
 impl Module for Node {
+    fn reset(&mut self) {
+        // called by `ModuleRef::reset` right after the runtime of the next incarnation has been built
+        let path = current().path().as_str().to_string();
+        {
+            let mut s = sh();
+            match s.incs.iter_mut().find(|x| x.0 == path) {
+                Some(x) => x.1 += 1,
+                None => s.incs.push((path, 1)),
+            }
+        }
+        obs("reset", "H", "-", &[]);
+    }
     fn at_sim_start(&mut self, _stage: usize) {
         obs("start", "H", "-", &[]);
         self.run_rule(On::Start, self.ttl0);
@@ -418,6 +460,7 @@ fn simulate(net: &Arc<Net>, seed: u64) -> RunOut {
         s.drops.clear();
         s.serial = 0;
         s.ids.clear();
+        s.incs.clear();
     }
     let net2 = net.clone();
     let r = guarded(move || {
@@ -630,10 +673,18 @@ const DELAYS: [u64; 8] = [0, 1, 1, 2, 2, 3, 5, 1000];
 const LATS: [u64; 8] = [0, 1, 2, 2, 3, 5, 10, 1000];
 const JITS: [u64; 8] = [0, 0, 1, 2, 4, 7, 50, 1000];
 
-fn gen_steps(r: &mut Rng, out: &mut String, in_task: bool, peers: &[String], kinds: u64, tasks: &[String], draws_only: bool) {
+fn gen_steps(r: &mut Rng, out: &mut String, in_task: bool, peers: &[String], kinds: u64, tasks: &[String], draws_only: bool, may_shut: bool) {
     let n = r.range(1, 4);
     let mut emitting = 0;
     for _ in 0..n {
+        if may_shut && r.chance(1, 4) {
+            if r.chance(1, 5) {
+                write!(out, " shut").unwrap();
+            } else {
+                write!(out, " restart:{}", r.pick(&DELAYS)).unwrap();
+            }
+            continue;
+        }
         let x = if draws_only { r.below(3) } else { r.below(if in_task { 12 } else { 10 }) };
         match x {
             0 | 1 => write!(out, " draw").unwrap(),
@@ -689,6 +740,14 @@ fn gen_case(r: &mut Rng, out: &mut String, noise: bool) {
         writeln!(out, "mod {p} ttl={}", r.range(1, 3)).unwrap();
         paths.push(p);
     }
+    // in 2 cases of 5 one or two modules shut down / restart themselves.  Links INTO such a module carry no
+    // jitter: the jitter of a delivery that an inactive module ignores cannot be read off the trace
+    let mut restartable = vec![false; nmods];
+    if r.chance(2, 5) {
+        for _ in 0..r.range(1, 2) {
+            restartable[r.below(nmods as u64) as usize] = true;
+        }
+    }
     // topology: chain, star or random tree; every edge in both directions
     let shape = r.below(3);
     let mut edges: Vec<(usize, usize)> = Vec::new();
@@ -713,7 +772,8 @@ fn gen_case(r: &mut Rng, out: &mut String, noise: bool) {
             if r.chance(1, 6) {
                 writeln!(out, "link {} {} direct", paths[s], paths[d]).unwrap();
             } else {
-                writeln!(out, "link {} {} lat={} jit={}", paths[s], paths[d], r.pick(&LATS), r.pick(&JITS)).unwrap();
+                let jit = if restartable[d] { 0 } else { *r.pick(&JITS) };
+                writeln!(out, "link {} {} lat={} jit={jit}", paths[s], paths[d], r.pick(&LATS)).unwrap();
             }
             peers[s].push(paths[d].clone());
         }
@@ -721,32 +781,60 @@ fn gen_case(r: &mut Rng, out: &mut String, noise: bool) {
     let kinds = r.range(2, 4);
     let ntasks = r.range(1, 4) as usize;
     let tasks: Vec<String> = (0..ntasks).map(|i| format!("t{i}")).collect();
+    // tasks that only restartable modules spawn: `s0` = a select! the seeded start index decides (it runs again
+    // in every incarnation, on the runtime built by `AsyncCoreExt::reset`), `q*` may shut the module down
+    let any_restart = restartable.iter().any(|b| *b);
+    let mut rtasks: Vec<String> = tasks.clone();
+    if any_restart {
+        rtasks.push("s0".into());
+        for i in 0..r.range(0, 2) {
+            rtasks.push(format!("q{i}"));
+        }
+    }
     for (i, p) in paths.iter().enumerate() {
-        if r.chance(4, 5) {
+        let rs = restartable[i];
+        let tl: &[String] = if rs { &rtasks } else { &tasks };
+        if rs || r.chance(4, 5) {
             write!(out, "rule {p} start").unwrap();
-            gen_steps(r, out, false, &peers[i], kinds, &tasks, false);
+            if rs {
+                write!(out, " spawn:s0").unwrap();
+            }
+            gen_steps(r, out, false, &peers[i], kinds, tl, false, rs);
             writeln!(out).unwrap();
         }
         for k in 1..=kinds {
             if r.chance(3, 4) {
                 write!(out, "rule {p} msg:{k}").unwrap();
-                gen_steps(r, out, false, &peers[i], kinds, &tasks, false);
+                gen_steps(r, out, false, &peers[i], kinds, tl, false, rs);
                 writeln!(out).unwrap();
             }
         }
         if r.chance(1, 3) {
             write!(out, "rule {p} end").unwrap();
-            gen_steps(r, out, false, &peers[i], kinds, &tasks, true);
+            gen_steps(r, out, false, &peers[i], kinds, tl, true, false);
             writeln!(out).unwrap();
         }
     }
-    for t in &tasks {
+    let all: Vec<String> = paths.clone();
+    for t in &rtasks {
         write!(out, "task {t}").unwrap();
+        if t == "s0" {
+            let k = r.range(2, 3);
+            let d = *r.pick(&DELAYS);
+            let ds: Vec<String> = (0..k).map(|_| d.to_string()).collect();
+            write!(out, " sel:{}", ds.join(",")).unwrap();
+            if r.chance(1, 2) {
+                write!(out, " sel:{}", ds.join(",")).unwrap();
+            }
+            write!(out, " draw").unwrap();
+            writeln!(out).unwrap();
+            continue;
+        }
         // a task runs on whichever module spawns it: it may name any peer (unknown links are skipped)
-        let all: Vec<String> = paths.clone();
-        gen_steps(r, out, true, &all, kinds, &tasks, false);
+        let q = t.starts_with('q');
+        gen_steps(r, out, true, &all, kinds, &tasks, false, q);
         if r.chance(1, 2) {
-            gen_steps(r, out, true, &all, kinds, &tasks, false);
+            gen_steps(r, out, true, &all, kinds, &tasks, false, q);
         }
         writeln!(out).unwrap();
     }
